@@ -133,13 +133,15 @@ def run_versions(ch):
             v = (0, 1, 0xff00, 0xff01, 0xffff, 0x7fff)[i % 6]
         vvals.append(v)
     img.null()
-    strsec = img.add(eg.Sec('.dynstr', 3, data=st.bytes(), flags=2))
+    strsec = img.add(eg.Sec('.dynstr', 3, data=st.bytes(), flags=2, addr=0x410000))
     symsec = img.add(eg.Sec('.dynsym', 11, data=b''.join(f.sym(soffs[i], 0x1000 + i, 0, 0x12, 0, 1 if i else 0) for i in range(nsym)), flags=2,
-                            link=strsec.index, info=1, entsize=f.symsize, align=8))
-    vsec = img.add(eg.Sec('.gnu.version', 0x6fffffff, data=b''.join(struct.pack(o + 'H', v) for v in vvals), flags=2, link=symsec.index, entsize=ventsize, align=2))
-    dsec = img.add(eg.Sec('.gnu.version_d', 0x6ffffffd, data=bytes(dbuf), flags=2, link=strsec.index, info=ndef, align=4, file_align=ch.pick('file_align', [4, 1])))
-    rsec = img.add(eg.Sec('.gnu.version_r', 0x6ffffffe, data=bytes(nbuf), flags=2, link=strsec.index, info=nneed, align=4))
+                            link=strsec.index, info=1, entsize=f.symsize, align=8, addr=0x420000))
+    vsec = img.add(eg.Sec('.gnu.version', 0x6fffffff, data=b''.join(struct.pack(o + 'H', v) for v in vvals), flags=2, link=symsec.index, entsize=ventsize, align=2, addr=0x430000))
+    dsec = img.add(eg.Sec('.gnu.version_d', 0x6ffffffd, data=bytes(dbuf), flags=2, link=strsec.index, info=ndef, align=4, file_align=ch.pick('file_align', [4, 1]), addr=0x440000))
+    rsec = img.add(eg.Sec('.gnu.version_r', 0x6ffffffe, data=bytes(nbuf), flags=2, link=strsec.index, info=nneed, align=4, addr=0x450000))
     img.add_shstrtab()
+    for s_ in (strsec, symsec, vsec, dsec, rsec):      # every allocated table is mapped (one PT_LOAD each: biases differ), as in a linked object
+        img.seg(eg.Seg(1, 4, of=s_, align=1))
     data = img.encode()
 
     from elftools.elf.elffile import ELFFile
